@@ -700,7 +700,7 @@ class Er(Pipeline):
                 elif hyp:
                     hyp[rng.randrange(len(hyp))] = rng.choice(WORDS[:4])
             utts.append({"id": uid, "ref": ref, "hyp": hyp})
-        return {"utts": utts, "batch_sizes": rng.sample([1, 2, 3, 100], 3), "replace": rng.choice([None, None, [["b", "a"]], [["c", "d"], ["a", "b"]]]),
+        return {"utts": utts, "batch_sizes": rng.sample([1, 2, 3, 100], 3), "replace": rng.choice([None, None, [["b", "a"]], [["c", "d"], ["a", "b"]], [["a", "b"], ["b", "c"]], [["a", "b"], ["b", "a"]]]),  # incl. a chain and a swap: each token is looked up once
                 "ignore": rng.choice([None, None, ["a"], ["d", "b"]]), "per_utt": rng.random() < 0.35, "distances": rng.random() < 0.25,
                 "costs": rng.choice([None, None, None, "nist", [1.0, 2.0, 1.0], [2.0, 1.0, 3.0], [1.0, 1.0, 2.0]]), "id2token": rng.random() < 0.6, "dims": rng.choice([1, 2]),
                 "hyp_positional": rng.random() < 0.5,
@@ -831,6 +831,9 @@ class Er(Pipeline):
         else:
             v = float(text.strip())
             d = len(per) if sc["distances"] else tot_len
+            if d == 0:
+                res.violate("er.total", f"printed {v} although the {'number of utterances' if sc['distances'] else 'total reference length'} is 0 (the figure is undefined)", pipeline="er")
+                return
             if not (tot_lo / d - 1e-6 <= v <= tot_hi / d + 1e-6):
                 res.violate("er.total", f"printed {v}; total edits in [{tot_lo}, {tot_hi}] divided by {'utterances' if sc['distances'] else 'total reference length'} {d} "
                             f"= [{tot_lo / d:.6f}, {tot_hi / d:.6f}]", pipeline="er")
@@ -1401,6 +1404,32 @@ class Chunk(Pipeline):
                         res.violate("chunk.windows", f"policy ali without valid-only on {uid}: {len(windows.get(uid, []))} chunks for {runs} segments (one slice per segment is documented)",
                                     pipeline=P, what="ali-count")
                         return
+        # the driver against the library's own slicer (every lobe size, valid-only): chunking a directory by a
+        # policy means one chunk per window that slice_spect_data returns for the utterance alone
+        if not sc["pad_mode"]:
+            from pydrobert.torch.functional import slice_spect_data
+
+            for uid, (k, u) in by_id.items():
+                T = u["T"]
+                if sc["policy"] == "fixed":
+                    src = Chunk.feats(sc, k, T).unsqueeze(0)
+                elif sc["policy"] == "ali":
+                    src = torch.tensor(u["ali"], dtype=torch.long).unsqueeze(0)
+                else:
+                    src = torch.tensor(u["ref"], dtype=torch.long).reshape(-1, 3).unsqueeze(0)
+                try:
+                    sl, _ = slice_spect_data(src, None, None, sc["policy"], sc["window"], True, sc["lobe"])
+                except Exception:  # noqa: the slicer itself refuses this input: not the driver's business
+                    continue
+                want_w = sorted((int(a_), int(b_)) for a_, b_ in sl.tolist())
+                got_w = sorted(windows.get(uid, []))
+                if not sc.get("idx_names"):
+                    want_w = sorted(set(want_w))  # equal windows share one name
+                if got_w != want_w:
+                    res.violate("chunk.windows", f"policy {sc['policy']} ({sc['window']}, lobe {sc['lobe']}, valid only) on utterance {uid} (T={T}): the command wrote chunks for windows {got_w}, "
+                                f"slice_spect_data returns {want_w} for that utterance", pipeline=P, what="driver-vs-slicer")
+                    return
+            res.bump("probe.chunk_windows_vs_slicer")
         # which windows exist: judged only for lobe size 0, where the documented policy is unambiguous
         if sc["lobe"] == 0:
             for uid, (k, u) in by_id.items():
